@@ -228,6 +228,22 @@ def run(ctx: Ctx):
         src = ast.unparse(rem.node)
         if "PEER_READY_STATES" not in src:
             ctx.fail(cons + "#states", rem.loc(), "readiness recomputation does not look at the ready states")
+        # every removal recomputes: no normal return of remove_peer_connection goes round the
+        # recomputation loop (the connection's own state says nothing - close_connection_socket
+        # has set it to CLOSED / it was DISCONNECTING after a DPR before the removal runs)
+        outer = None
+        x = clears_ready[0].ast
+        while x in par:
+            x = par[x]
+            if isinstance(x, ast.For):
+                outer = x
+        loopn = [n for n in g.nodes if n.kind == "iter" and n.ast is outer]
+        ctx.inst(cons + "#always")
+        if not loopn or not g.dominated(g.exit, loopn, effect=False):
+            ctx.fail(cons + "#always", g.loc(loopn[0]) if loopn else rem.loc(),
+                     "remove_peer_connection can return without recomputing application readiness "
+                     "(early return / condition in front of the recomputation): an application "
+                     "whose last configured peer has just lost its connection keeps reporting ready")
         # the recomputation happens after the owner clear
         if clears and not all(g.can_reach(c, clears_ready[0]) for c in clears):
             ctx.fail(cons + "#order", rem.loc(), "readiness is recomputed before Peer.connection is cleared")
